@@ -61,7 +61,19 @@ var c15Amounts = []types.Currency{
 	types.NewCurrency64(419_430_400), types.NewCurrency64(1_000_000_000_000),
 }
 
-func amount15(code int) types.Currency { return c15Amounts[mod(code, len(c15Amounts))] }
+func amount15(code int) types.Currency {
+	if code >= 100 {
+		return extremeTable[(code-100)%len(extremeTable)]
+	}
+	return c15Amounts[mod(code, len(c15Amounts))]
+}
+
+func genAmount15(t *rapid.T, label string) int {
+	if rapid.IntRange(0, 7).Draw(t, label+"-extreme") == 0 {
+		return 100 + rapid.IntRange(0, len(extremeTable)-1).Draw(t, label+"-x")
+	}
+	return rapid.IntRange(0, len(c15Amounts)-1).Draw(t, label)
+}
 
 // ---------------------------------------------------------------- executor
 
@@ -149,6 +161,9 @@ func (x *c15) fund(m *mcontract, deps []proto4.AccountDeposit) error {
 		return errInconclusive
 	}
 	valid := len(deps) > 0 && !r.Unpayable
+	if r.Unpayable {
+		x.cs.Class("fund-total-overflows-or-unaffordable")
+	}
 	for _, d := range deps {
 		valid = valid && !d.Amount.IsZero()
 	}
@@ -197,7 +212,7 @@ func (x *c15) replenish(m *mcontract, pools bool, kidx []int, target types.Curre
 	var deps []proto4.AccountDeposit
 	var sum types.Currency
 	running := map[int]types.Currency{}
-	dup := false
+	dup, sumOverflow := false, false
 	for _, i := range kidx {
 		b, seen := running[i]
 		if !seen {
@@ -211,7 +226,9 @@ func (x *c15) replenish(m *mcontract, pools bool, kidx []int, target types.Curre
 			d.Amount = target.Sub(b)
 		}
 		running[i] = b.Add(d.Amount)
-		sum = sum.Add(d.Amount)
+		var o bool
+		sum, o = sum.AddWithOverflow(d.Amount)
+		sumOverflow = sumOverflow || o
 		deps = append(deps, d)
 	}
 	what := fmt.Sprintf("replenish %s %v to %v", name, kidx, target)
@@ -226,7 +243,10 @@ func (x *c15) replenish(m *mcontract, pools bool, kidx []int, target types.Curre
 		return errInconclusive
 	}
 	_, _, rerr := proto4.ReviseForReplenish(m.Rev, sum)
-	valid := len(keys) > 0 && !target.IsZero() && rerr == nil
+	valid := len(keys) > 0 && !target.IsZero() && rerr == nil && !sumOverflow
+	if sumOverflow {
+		x.cs.Class("replenish-total-overflows")
+	}
 	if !r.Done {
 		if valid && !dup {
 			return fmt.Errorf("%s: an honest affordable replenish was refused: %v", what, r.Result)
@@ -944,7 +964,7 @@ func genC15(t *rapid.T) C15Case {
 			op.Op = "fund"
 			nd := rapid.IntRange(1, 3).Draw(t, "ndep")
 			for j := 0; j < nd; j++ {
-				op.Dep = append(op.Dep, rapid.IntRange(0, 2).Draw(t, "acct"), rapid.IntRange(0, len(c15Amounts)-1).Draw(t, "amt"))
+				op.Dep = append(op.Dep, rapid.IntRange(0, 2).Draw(t, "acct"), genAmount15(t, "amt"))
 			}
 		case k < 4:
 			op.Op = "repl-acct"
@@ -972,7 +992,7 @@ func genC15(t *rapid.T) C15Case {
 			}
 			op.Dup = rapid.IntRange(0, 5).Draw(t, "dup") == 0
 			if rapid.Bool().Draw(t, "abs") {
-				op.Abs = 1 + rapid.IntRange(0, len(c15Amounts)-1).Draw(t, "target")
+				op.Abs = 1 + genAmount15(t, "target")
 			} else {
 				op.Rel = rapid.IntRange(-1, 1).Draw(t, "rel")
 			}
@@ -1024,7 +1044,7 @@ func genC15(t *rapid.T) C15Case {
 
 var c15Prop = kit.Prop[C15Case]{
 	ID:   "C15",
-	Rule: "sequences (2..14, thorough 2..24) over 3 accounts, 5 pools and 2 contracts against the real rhp4.Server: fund, replenish accounts/pools (targets below, at and above the current balance, mixed keys), attach/detach (valid incl. batches and idempotent repeats; signed by the wrong key; bound to another host key; expired; never-funded pool), read/write/verify with the drawable funds (own balance + attached pools, split by drawn weights) topped up to cost-1, cost or cost+1, ranges over the whole domain the request validation accepts (offset inside a leaf with aligned end, range ending at the sector end, last leaf, whole sector, leaf index 65535), unknown sectors, invalid account tokens, a renter that stops / stalls / truncates the request or the data stream or does not read the answer, balance queries. Oracle from the recorded Contractor/Sectors calls and a balance model: every credit batch is carried by exactly one doubly-signed revision moving the same total from renter to host; every debit carries core's price of the request and precedes the single sector operation; insufficient funds / invalid token / unknown sector => no data, no sector operation, no balance change; replenish leaves max(before, target); rejected attach/detach never reach the contractor; balances and the ordered attachment table (read by value) equal the model (own balance first, then pools in attachment order) after every step. Non-trivial = a debit that drains the account's own balance and continues into a pool, or a request exactly one hasting short; distinct by hash of the case.",
+	Rule: "sequences (2..14, thorough 2..24) over 3 accounts, 5 pools and 2 contracts against the real rhp4.Server: fund, replenish accounts/pools (targets below, at and above the current balance, mixed keys; amounts and targets up to the edges of the 128-bit range, the renter signing the wrapped total when a sum overflows), attach/detach (valid incl. batches and idempotent repeats; signed by the wrong key; bound to another host key; expired; never-funded pool), read/write/verify with the drawable funds (own balance + attached pools, split by drawn weights) topped up to cost-1, cost or cost+1, ranges over the whole domain the request validation accepts (offset inside a leaf with aligned end, range ending at the sector end, last leaf, whole sector, leaf index 65535), unknown sectors, invalid account tokens, a renter that stops / stalls / truncates the request or the data stream or does not read the answer, balance queries. Oracle from the recorded Contractor/Sectors calls and a balance model: every credit batch is carried by exactly one doubly-signed revision moving the same total from renter to host; every debit carries core's price of the request and precedes the single sector operation; insufficient funds / invalid token / unknown sector => no data, no sector operation, no balance change; replenish leaves max(before, target); rejected attach/detach never reach the contractor; balances and the ordered attachment table (read by value) equal the model (own balance first, then pools in attachment order) after every step. Non-trivial = a debit that drains the account's own balance and continues into a pool, or a request exactly one hasting short; distinct by hash of the case.",
 	Assumptions: []string{
 		"host = rhp4.Server over the repository's reference EphemeralContractor / EphemeralSectorStore, in-memory transport",
 		"a replenish request may list a key twice (the request validation does not exclude it); the expectation is the statement's: the balance ends at max(before, target); a host that refuses such a request outright is accepted too",
